@@ -440,10 +440,10 @@ pub fn check_def(id: &str) -> Option<CheckDef> {
             thorough_runs: 2_000_000,
             ..d("C23", vec![tagged_profile()])
         },
-        "C25" => d("C25", vec![iterate_profile()]),
+        "C25" => CheckDef { quick_runs: 400_000, thorough_runs: 10_000_000, ..d("C25", vec![iterate_profile()]) },
         "C26" => CheckDef {
-            quick_runs: 60_000,
-            thorough_runs: 1_500_000,
+            quick_runs: 300_000,
+            thorough_runs: 8_000_000,
             hash_seeds: (1, 1),
             ..d("C26", vec![])
         },
